@@ -329,6 +329,7 @@ pub fn fresh_record(n_samples: usize) -> crate::gen::callset::Record {
         info: 0,
         fmt_dp: false,
         fmt_gq: false,
+        ref_pad: 0,
         has_gt: true,
         force: 0,
         gts: vec![Gt::diploid(Some(0), Some(1), false); n_samples],
